@@ -51,28 +51,28 @@ func c10gr4j(x4 float64, closure bool) {
 }
 
 // H_C10_gr4j_x4_0p75: store bounds, non-negativity and step budget for x4 = 0.75.
-//vsym:prop=C10 tier=thorough ints=int floats=real timeout=300
+//vsym:prop=C10 tier=thorough ints=int floats=real timeout=60 wall=900
 func H_C10_gr4j_x4_0p75() { c10gr4j(0.75, false) }
 
 // H_C10_gr4j_x4_1p5: same for x4 = 1.5.
-//vsym:prop=C10 tier=thorough ints=int floats=real timeout=300
+//vsym:prop=C10 tier=thorough ints=int floats=real timeout=60 wall=900
 func H_C10_gr4j_x4_1p5() { c10gr4j(1.5, false) }
 
 // H_C10_gr4j_x4_2p5: same for x4 = 2.5.
-//vsym:prop=C10 tier=thorough ints=int floats=real timeout=300
+//vsym:prop=C10 tier=thorough ints=int floats=real timeout=60 wall=900
 func H_C10_gr4j_x4_2p5() { c10gr4j(2.5, false) }
 
 // H_C10_gr4j_closure_x4_1p5: x2 = 0 and PET = 0: rainfall = runoff + change in production,
 // routing and unit-hydrograph stores, exactly (x4 = 1.5).
-//vsym:prop=C10 tier=thorough ints=int floats=real timeout=300
+//vsym:prop=C10 tier=thorough ints=int floats=real timeout=60 wall=900
 func H_C10_gr4j_closure_x4_1p5() { c10gr4j(1.5, true) }
 
 // H_C10_gr4j_closure_x4_3p5: closure for x4 = 3.5.
-//vsym:prop=C10 tier=thorough ints=int floats=real timeout=300
+//vsym:prop=C10 tier=thorough ints=int floats=real timeout=60 wall=900
 func H_C10_gr4j_closure_x4_3p5() { c10gr4j(3.5, true) }
 
 // H_C10_gr4j_x4_4: bounds and budget for x4 = 4.
-//vsym:prop=C10 tier=thorough ints=int floats=real timeout=300
+//vsym:prop=C10 tier=thorough ints=int floats=real timeout=60 wall=900
 func H_C10_gr4j_x4_4() { c10gr4j(4, false) }
 
 // c10gr4jHunt: the same one-day obligations as c10gr4j, but as counterexample searches (z3 does
